@@ -594,8 +594,10 @@ impl RADAU {
                             hhfac = 0.8 * qnewt.powf(exponent);
                             h *= hhfac;
                             steps.rejected += 1;
+                            reject = true;
                             last = false;
-                            break 'newton;
+                            call_decomp = true;
+                            continue 'main;
                         }
                     } else {
                         // Unexpected step rejection - continue with reduced step
